@@ -79,6 +79,9 @@ func (v *Verifier) bigIntrinsic(fr *Frame, st *State, full string, fn *types.Fun
 	c := v.eng.C
 	pos := x.Pos()
 	v.needIntIdx(pos, "math/big model")
+	if v.bigMath {
+		return v.bigMathIntrinsic(fr, st, full, fn, recv, args, x)
+	}
 	v.intrinsicsUsed["math/big.Int modelled as a two's-complement bit array per object ("+fn.Name()+")"] = true
 	bitsT := ArraySort(IntSort, BoolSort)
 	if full == "math/big.NewInt" {
@@ -384,4 +387,139 @@ func (v *Verifier) execTypeSwitch(fr *Frame, st *State, x *ast.TypeSwitchStmt, l
 		outs = append(outs, s)
 	}
 	return outs
+}
+
+// ---------- mode bigmath: *big.Int objects denote mathematical integers (ghost heap G:big#val).
+
+const gBigVal = "G:big#val"
+
+func (v *Verifier) bigValHeap(st *State) *Term {
+	return v.eng.heap(st, gBigVal, ArraySort(IntSort, IntSort))
+}
+
+func (v *Verifier) bigVal(st *State, ref *Term) *Term { return v.eng.C.Select(v.bigValHeap(st), ref) }
+
+func (v *Verifier) setBigVal(st *State, ref, val *Term) {
+	v.setGhostHeap(st, gBigVal, v.eng.C.Store(v.bigValHeap(st), ref, val))
+}
+
+// bytesValue: the big-endian value of a byte slice, an uninterpreted function of its content
+// (for 32-byte blocks: of the 32 bytes themselves).
+func (v *Verifier) bytesValue(st *State, sv SliceVal) *Term {
+	c := v.eng.C
+	row := v.eng.heapRows(st, sv.Sh.Elem, sv.Ref)[0]
+	var acc *Term
+	for i := int64(0); i < 32; i++ {
+		b := c.Select(row, c.IAdd(sv.Off, c.Inti(i)))
+		if acc == nil {
+			acc = b
+		} else {
+			acc = c.Concat(acc, b)
+		}
+	}
+	v32 := c.App("big$bytes32", IntSort, acc)
+	other := c.App("big$bytes", IntSort, row, sv.Off, sv.Len)
+	return c.Ite(c.Eq(sv.Len, c.Inti(32)), v32, other)
+}
+
+func (v *Verifier) bigMathIntrinsic(fr *Frame, st *State, full string, fn *types.Func, recv Val, args []Val, x *ast.CallExpr) (Val, bool) {
+	c := v.eng.C
+	pos := x.Pos()
+	v.intrinsicsUsed["math/big.Int modelled as a mathematical integer per object ("+fn.Name()+")"] = true
+	if full == "math/big.NewInt" {
+		p := v.newBigPtr(st, fn.Type().(*types.Signature).Results().At(0).Type())
+		v.setBigVal(st, p.Ref, v.bvToInt(v.asScalar(args[0], pos).T, true))
+		return p, true
+	}
+	if recv == nil {
+		return nil, false
+	}
+	zref, znil := v.bigRef(recv, pos)
+	if !fr.inSpec {
+		v.oblige(fr, st, "nil", pos, c.Not(znil), "nil *big.Int receiver")
+	}
+	val := func(i int) *Term {
+		r, n := v.bigRef(args[i], pos)
+		if !fr.inSpec {
+			v.oblige(fr, st, "nil", pos, c.Not(n), "nil *big.Int argument")
+		}
+		return v.bigVal(st, r)
+	}
+	switch fn.Name() {
+	case "Set":
+		v.setBigVal(st, zref, val(0))
+		return recv, true
+	case "Add":
+		v.setBigVal(st, zref, c.IAdd(val(0), val(1)))
+		return recv, true
+	case "Sub":
+		v.setBigVal(st, zref, c.ISub(val(0), val(1)))
+		return recv, true
+	case "Mul":
+		v.setBigVal(st, zref, c.IMul(val(0), val(1)))
+		return recv, true
+	case "Mod":
+		a, m := val(0), val(1)
+		if !fr.inSpec {
+			v.oblige(fr, st, "divzero", pos, c.Not(c.Eq(m, c.Inti(0))), "big.Int.Mod: division by zero")
+		}
+		// Go's Mod is the Euclidean modulus; SMT-LIB mod likewise
+		v.setBigVal(st, zref, c.IMod(a, m))
+		return recv, true
+	case "SetBytes":
+		sv := args[0].(SliceVal)
+		bv := v.bytesValue(st, sv)
+		v.setBigVal(st, zref, bv)
+		st.assume(c.ILe(c.Inti(0), bv))
+		return recv, true
+	case "SetInt64", "SetUint64":
+		v.setBigVal(st, zref, v.bvToInt(v.asScalar(args[0], pos).T, fn.Name() == "SetInt64"))
+		return recv, true
+	case "Sign":
+		a := v.bigVal(st, zref)
+		r := c.Ite(c.ILt(a, c.Inti(0)), c.Inti(-1), c.Ite(c.Eq(a, c.Inti(0)), c.Inti(0), c.Inti(1)))
+		return Scalar{r, types.Typ[types.Int]}, true
+	case "Cmp":
+		a, b := v.bigVal(st, zref), val(0)
+		r := c.Ite(c.ILt(a, b), c.Inti(-1), c.Ite(c.Eq(a, b), c.Inti(0), c.Inti(1)))
+		return Scalar{r, types.Typ[types.Int]}, true
+	case "Bytes":
+		// big-endian bytes of |x|: a fresh slice whose value is |x| (inverse pair with SetBytes, trusted)
+		sh := v.eng.shapeOf(fn.Type().(*types.Signature).Results().At(0).Type())
+		var wf []*Term
+		sv := v.eng.freshVal(sh, "bigbytes", &wf).(SliceVal)
+		sv.Ref = v.freshRef(st)
+		for _, w := range wf {
+			st.assume(w)
+		}
+		a := v.bigVal(st, zref)
+		st.assume(c.Implies(c.ILe(c.Inti(0), a), c.Eq(v.bytesValue(st, sv), a)))
+		return sv, true
+	}
+	// anything else: receiver havocked
+	if _, isPtr := fn.Type().(*types.Signature).Recv().Type().(*types.Pointer); isPtr {
+		v.setBigVal(st, zref, c.Fresh("bigval$"+fn.Name(), IntSort))
+		v.notes = append(v.notes, "math/big.Int."+fn.Name()+": receiver's value havocked (not modelled in bigmath mode)")
+	}
+	res := fn.Type().(*types.Signature).Results()
+	var out []Val
+	for i := 0; i < res.Len(); i++ {
+		if isBigInt(res.At(i).Type()) {
+			out = append(out, recv)
+			continue
+		}
+		var wf []*Term
+		fv := v.eng.freshVal(v.eng.shapeOf(res.At(i).Type()), "big$"+fn.Name(), &wf)
+		for _, w := range wf {
+			st.assume(w)
+		}
+		out = append(out, fv)
+	}
+	switch len(out) {
+	case 0:
+		return TupleVal{}, true
+	case 1:
+		return out[0], true
+	}
+	return TupleVal{out}, true
 }
